@@ -247,10 +247,15 @@ impl InnerNodeManage {
         if self.all_nodes.is_empty() {
             ProcessRange::new(0, 1)
         } else {
-            ProcessRange::new(
-                self.get_this_node().index as usize,
-                self.all_nodes.iter().filter(|(_, v)| v.is_valid()).count(),
-            )
+            // index and len are both taken among the valid nodes (id order), like NodeManage::route_addr
+            let valid_ids: Vec<u64> = self
+                .all_nodes
+                .iter()
+                .filter(|(_, v)| v.is_valid())
+                .map(|(id, _)| *id)
+                .collect();
+            let index = valid_ids.iter().filter(|id| **id < self.local_id).count();
+            ProcessRange::new(index, valid_ids.len())
         }
     }
 
